@@ -33,6 +33,9 @@ def unary_menu():
     add(("accnone",), ("i",), "i")
     add(("accrsws",), ("i",), "p")
     add(("pkey", "idx"), ("p",), "p")              # partition keyed by x[0] (non-callable key)
+    add(("punique", 2, "idx0", "first"), ("p",), "p")      # partition_unique keyed by x[0] (non-callable key)
+    add(("punique", 2, "idx0", "last"), ("p",), "p")
+    add(("sinkf", "rec3"), ("i", "p"), "none")     # sink(func, *args, **kwargs)
     add(("flatten",), ("p", "tn", "te"), "i")
     add(("pluck", 0), ("p", "tn"), "i")
     add(("pluck", (1, 0)), ("p",), "p")
